@@ -22,3 +22,9 @@ static void pvector_tracked_big(Src &s, Case &c)
 VP_TARGET("portable_vector_tracked_big", pvector_tracked_big, "the std_portable twin with lifetime-tracking elements and the big-size histories of vector_int_big");
 VP_TARGET("portable_vector_int", pvector_int, "the igris::vector twin of std_portable.h with int elements: same histories and reference as vector_int (operations the twin lacks are skipped)");
 VP_TARGET("portable_vector_tracked", pvector_tracked, "the igris::vector twin of std_portable.h with lifetime-tracking elements");
+static void pvector_nested(Src &s, Case &c)
+{
+    c02::vec_target<igris_portable::vector<c02::Nest<igris_portable::vector<int>>>, c02::Nest<igris_portable::vector<int>>, c02::ApiPortable>(
+        s, c, "std_portable igris::vector<Nest{igris::vector<int>}>");
+}
+VP_TARGET("portable_vector_nested", pvector_nested, "the std_portable twin with elements that each hold a vector of the twin (vector_nested)");
